@@ -70,6 +70,9 @@ public:
 
     void write_entire_contents_to(FILE* file);
 
+    // Write out anything which is still buffered, throwing if that fails.
+    void flush();
+
     void write_entire_contents_to(File& file)
     {
         write_entire_contents_to(file.m_file);
